@@ -18,7 +18,7 @@ func (c07) ID() string { return "C07" }
 
 func (c07) NumCases(tier string) int {
 	if tier == "thorough" {
-		return 600_000
+		return 1_500_000
 	}
 	return 24_000
 }
